@@ -1185,6 +1185,47 @@ func (vc *VC) modVarsOfExpr(m Expr, fn *ssa.Function, k *FuncContract, sigs ...*
 			env.vars["self"] = cv
 		}
 	}
+	dummy := func(n string, t types.Type) {
+		if _, have := env.vars[n]; have {
+			return
+		}
+		cv := cval{t: "0", typ: t, sort: vc.sortOf(t)}
+		if cv.sort != "Int" {
+			cv.t = zeroOf(cv.sort)
+		}
+		env.vars[n] = cv
+	}
+	// captured variables of a function literal, by name
+	if fn != nil {
+		for _, fv := range fn.FreeVars {
+			if pt, isPtr := fv.Type().Underlying().(*types.Pointer); isPtr && !isAggregate(pt.Elem()) {
+				dummy(fv.Name(), pt.Elem())
+			} else {
+				dummy(fv.Name(), fv.Type())
+			}
+		}
+	}
+	// a contract scoped to a caller ("f in g") may mention g's named locals
+	if k != nil {
+		if i := strings.Index(k.Name, " in "); i > 0 {
+			if caller := vc.P.Funcs[k.Name[i+4:]]; caller != nil {
+				for _, l := range caller.Locals {
+					if l.Comment != "" {
+						dummy(l.Comment, l.Type().Underlying().(*types.Pointer).Elem())
+					}
+				}
+				for _, b := range caller.Blocks {
+					for _, in := range b.Instrs {
+						if d, isd := in.(*ssa.DebugRef); isd && !d.IsAddr {
+							if obj, isv := d.Object().(*types.Var); isv && !obj.IsField() {
+								dummy(obj.Name(), obj.Type())
+							}
+						}
+					}
+				}
+			}
+		}
+	}
 	ok = true
 	if k != nil {
 		env.evalLets(k)
